@@ -1689,3 +1689,26 @@ CONTROLS['C02'] += [
     B('c02-benign-skip-final-check-without-shared-classes', RCX, _EXC,
       "        if not self.multi_group_rcs:\n            return False\n" + _EXC),
 ]
+
+_UPD_OLD = ("                # User supplied a parent, let's make sure it exists\n"
+            "                if parent_ids is None:\n"
+            "                    raise exception.ObjectActionError(\n"
+            "                        action='create',\n"
+            "                        reason='parent provider UUID does not exist.')\n"
+            "                if (my_ids.parent_id is not None and\n"
+            "                        my_ids.parent_id != parent_ids.id and\n"
+            "                        not allow_reparenting):\n")
+_HOIST = ("                is_reparenting = (my_ids.parent_id is not None and\n"
+          "                                  my_ids.parent_id != parent_ids.id)\n")
+_NONE = ("                # User supplied a parent, let's make sure it exists\n"
+         "                if parent_ids is None:\n"
+         "                    raise exception.ObjectActionError(\n"
+         "                        action='create',\n"
+         "                        reason='parent provider UUID does not exist.')\n")
+_GATE = "                if is_reparenting and not allow_reparenting:\n"
+for _p in ('C15', 'C09', 'C14'):
+    CONTROLS[_p] += [B('%s-benign-hoisted-reparent-test' % _p.lower(), ORP, _UPD_OLD,
+                       _NONE + _HOIST + _GATE)]
+CONTROLS['C15'] += [
+    M('c15-seed-deref-before-none-test', ORP, _UPD_OLD, _HOIST + _NONE + _GATE, 'R15.10'),
+]
